@@ -483,7 +483,9 @@ def main(argv=None):
     evidence = {
         'property_id': prop, 'tier': args.tier, 'seed': seed, 'level': 'model_checking',
         'coverage': {
-            'states': tot['evals'],
+            # explicit-state checks count the distinct states they hashed (cats['states']); the others
+            # enumerate each input once, so the number of cases is the number of distinct states
+            'states': max(tot['evals'], cats.get('states', 0)),
             'transitions': max(tot['transitions'], 0),
             'traces_validated_against_impl': tot['validated'],
             'evaluations': tot['evals'],
